@@ -150,19 +150,26 @@ Example r2_holds_without_second_pass_additions_nonvacuous :
 Proof. exact C02Proofs.r2_holds_without_second_pass_additions_nonvacuous_lemma. Qed.
 Print Assumptions r2_holds_without_second_pass_additions_nonvacuous.
 
-(* (8) R4, gained states. As specified r4_gain_ok is true of every s'
-   ([candidates] is seeded with s'), so this is a fact about the predicate
-   rather than about the resolver; r4_gain_partial is the informative one. *)
+(* (8) R4 gain: every gained state is called (Add/Set) or reachable through
+   Add relations from a called or previously active state *)
 Theorem r4_gain :
   forall sc topo active mt called,
     r4_gain_ok sc mt called active (resolve sc topo active mt called) = true.
 Proof. exact C02Proofs.r4_gain_lemma. Qed.
 Print Assumptions r4_gain.
 
-Theorem r4_gain_ok_any :
-  forall sc mt called s s', r4_gain_ok sc mt called s s' = true.
-Proof. exact C02Proofs.r4_gain_ok_any. Qed.
-Print Assumptions r4_gain_ok_any.
+Example r4_gain_nonvacuous :
+  let sd := fun (multi : bool) (add : list nat) =>
+    {| s_auto := false; s_multi := multi; s_require := []; s_add := add;
+       s_remove := []; s_after := [] |} in
+  let sc := [sd false [1]; sd false [2]; sd false [3]; sd false []; sd true []] in
+  let sc2 := [sd false [1]; sd false [7]] in
+  diff (resolve sc [] [] MAdd [0]) [] = [2; 0; 1] /\
+  candidates sc MAdd [0] [] = [0; 1; 2; 3] /\
+  diff (resolve sc2 [] [] MAdd [0]) [] = [7; 0; 1] /\
+  candidates sc2 MAdd [0] [] = [0; 1; 7].
+Proof. exact C02Proofs.r4_gain_nonvacuous_lemma. Qed.
+Print Assumptions r4_gain_nonvacuous.
 
 Theorem target_chain :
   forall (c : rctx) (to_set : list nat) x,
@@ -199,3 +206,57 @@ Example r4_gain_partial_nonvacuous :
   In 2 (s_add (sget sc 1)).
 Proof. exact C02Proofs.r4_gain_partial_nonvacuous_lemma. Qed.
 Print Assumptions r4_gain_partial_nonvacuous.
+
+(* (9) R4 loss as specified is violated by the as-is resolver: a state whose
+   Require only arrives with the second parseAdd pass is dropped in the first *)
+Theorem r4_loss_refuted :
+  exists sc topo active mt called,
+    r4_loss_ok sc mt called active (resolve sc topo active mt called) = false /\
+    active = [0] /\ resolve sc topo active mt called = [3; 1; 2] /\
+    s_require (sget sc 0) = [3].
+Proof. exact C02Proofs.r4_loss_refuted_lemma. Qed.
+Print Assumptions r4_loss_refuted.
+
+(* every lost state is justified as specified, or missed a Require already in
+   the first pass (the list that enters the scan) *)
+Theorem r4_loss_partial :
+  forall sc topo active mt called,
+    let c := {| rc_schema := sc; rc_before := active; rc_mtype := mt;
+                rc_called := called; rc_topology := topo |} in
+    let s' := resolve sc topo active mt called in
+    forallb (fun l =>
+        loss_justified sc mt called active s' l
+        || negb (forallb (fun r => mem r (pass1_list c (states_to_set mt called active)))
+                         (s_require (sget sc l))))
+      (diff active s') = true.
+Proof. exact C02Proofs.r4_loss_partial_lemma. Qed.
+Print Assumptions r4_loss_partial.
+
+(* R4 loss holds whenever the second parseAdd pass adds nothing new *)
+Theorem r4_loss_holds_without_second_pass_additions :
+  forall sc topo active mt called,
+    let c := {| rc_schema := sc; rc_before := active; rc_mtype := mt;
+                rc_called := called; rc_topology := topo |} in
+    let ts := states_to_set mt called active in
+    every (resolved_list c ts) (parse_add c (resolved_list c ts)) = true ->
+    r4_loss_ok sc mt called active (resolve sc topo active mt called) = true.
+Proof. exact C02Proofs.r4_loss_holds_without_second_pass_additions_lemma. Qed.
+Print Assumptions r4_loss_holds_without_second_pass_additions.
+
+Example r4_loss_nonvacuous :
+  let sd := fun (multi : bool) (req add rem : list nat) =>
+    {| s_auto := false; s_multi := multi; s_require := req; s_add := add;
+       s_remove := rem; s_after := [] |} in
+  let scl := [sd false [3] [] []; sd false [] [2] []; sd false [] [3] [];
+              sd false [] [] []; sd true [] [] []] in
+  pass1_list {| rc_schema := scl; rc_before := [0]; rc_mtype := MAdd;
+                rc_called := [1]; rc_topology := [] |} [1; 0] = [1; 2] /\
+  diff [0] (resolve scl [] [0] MAdd [1]) = [0] /\
+  (let sc := [sd false [] [] [1]; sd false [] [] []; sd true [] [] []] in
+   let c := {| rc_schema := sc; rc_before := [1]; rc_mtype := MAdd;
+               rc_called := [0]; rc_topology := [] |} in
+   every (resolved_list c [0; 1]) (parse_add c (resolved_list c [0; 1])) = true /\
+   diff [1] (resolve sc [] [1] MAdd [0]) = [1] /\
+   r4_loss_ok sc MAdd [0] [1] (resolve sc [] [1] MAdd [0]) = true).
+Proof. exact C02Proofs.r4_loss_nonvacuous_lemma. Qed.
+Print Assumptions r4_loss_nonvacuous.
